@@ -26,7 +26,19 @@ def generate(seed, tier, enlarged=False):
     n = 120 if tier == 'quick' else 2500
     if enlarged:
         n *= 3
-    cases = []
+    cases = [
+        # corpus: the known findings K3 (inheriting daughters copy a pending command), K6 (explicit daughters with
+        # an empty flow publish the mother's flow), K8 (inheriting daughters lose the mother's steps)
+        {'kind': 'run', 'hist': [['A', [['generate', 'c01', 0, {}]]], ['A', [['generate', 'c02', 0, {}]]],
+                                 ['A', [['divide', 'c01', [['c03', None, {}], ['c04', None, {}]], 5]]],
+                                 ['B', [['generate', 'c05', 0, {}]]]], 'ts': [3, 3, 3, 3, 3, 3], 'extra': 2},
+        {'kind': 'run', 'hist': [['A', [['generate', 'c01', 3, {}]]], ['B', [['generate', 'c02', 0, {}]]],
+                                 ['A', [['divide', 'c01', [['c03', 0, {}], ['c04', 1, {}]], 7]]]],
+         'ts': [1] * 12, 'extra': 2},
+        {'kind': 'run', 'hist': [['A', [['generate', 'c01', 3, {}]]], ['B', [['generate', 'c02', 0, {}]]],
+                                 ['A', [['divide', 'c01', [['c03', None, {}], ['c04', None, {}]], 7]]]],
+         'ts': [1] * 12, 'extra': 2},
+    ]
     for i in range(n):
         if i % 2 == 0:
             cases.append({'kind': 'hist', 'hist': struct.gen_history(rng, rng.randint(3, 10 if tier == 'quick' else 25))})
